@@ -193,6 +193,17 @@ def gen_cases(rng, tier):
                       "n_test": 3, "m": rng.randint(18, 24), "noise": rng.choice([0.3, 1.0, 2.5]),
                       "rs": rng.choice([0, 1, 7, 42, 123]), "ycont": rng.choice(["array", "series"]),
                       "unseen_test_label": rng.random() < 0.25})
+    # ContractableBOSS weights a member by (leave-one-out train accuracy)^4 measured on a 70 %
+    # subsample: with two instances per class most left-out instances have no neighbour of their own
+    # class, so members with accuracy 0 - and ensembles made of such members only - occur
+    # (F-C17-2, repaired: the weights must not all be zero)
+    for _ in range(10 if tier == "quick" else 60):
+        k = rng.choice([3, 4, 4])
+        cases.append({"kind": "clf", "clf": "cboss", "seed": rng.randint(0, 10 ** 6), "k": k,
+                      "labelset": rng.choice(sorted(LABELSETS)), "sizes": [2] * k, "n_test": 3,
+                      "m": rng.randint(12, 16), "noise": rng.choice([0.3, 1.0, 2.5]),
+                      "rs": rng.choice([0, 1, 7, 42, 123]), "ycont": rng.choice(["array", "series"]),
+                      "unseen_test_label": rng.random() < 0.25})
     return cases
 
 
@@ -429,14 +440,23 @@ def _run_clf(case):
                                            tb.lineno),
                 "where": "predict_proba of the fitted forest; classes_=%s, the trees' own classes_=%s" % (
                     [_lab(v)[1] for v in clf.classes_], [[_lab(v)[1] for v in tc] for tc, _ in members])}
-    pred = clf.predict(Xte)
-    score = clf.score(Xte, _ycont(yte, case["ycont"]))
+    pred_err = None
+    try:
+        pred = clf.predict(Xte)
+        score = clf.score(Xte, _ycont(yte, case["ycont"]))
+    except ValueError as e:
+        if np.isfinite(np.asarray(proba, dtype=float)).all():
+            raise
+        # predict on top of non-finite probabilities: report the probabilities (oracle: proba-range)
+        pred, score, pred_err = [], float("nan"), "%s: %s" % (type(e).__name__, str(e)[:120])
     out = {"ytrain": [_lab(v) for v in ytr], "ytest": [_lab(v) for v in yte],
            "classes": [_lab(v) for v in clf.classes_], "shape": list(proba.shape),
            "proba": [[_ratio(v) for v in row] for row in proba] if proba.ndim == 2 else None,
            "pred": [_lab(v) for v in pred], "pred_shape": list(np.shape(pred)),
            "score": _ratio(score), "mkind": kind,
            "tie": "near" if name == "muse" else "any"}
+    if pred_err:
+        out["pred_err"] = pred_err
     if kind == "votes":
         out["members"] = [[_ratio(w), [_lab(v) for v in votes]] for w, votes in members]
     elif kind == "trees":
@@ -574,7 +594,12 @@ def _clf_oracle(case, out):
     P = [[_f(v) for v in row] for row in out["proba"]]
     for i, row in enumerate(P):
         if any(v is None or v < 0 or v > 1 for v in row):
-            return "proba-range: instance %d row %s" % (i, row)
+            extra = ""
+            if out["mkind"] == "votes":
+                extra = "; members' weights %s" % [_f(w) for w, _ in out["members"]]
+            if out.get("pred_err"):
+                extra += "; predict raises %s" % out["pred_err"]
+            return "proba-range: instance %d row %s%s" % (i, [v if v is not None else "nan" for v in row], extra)
         if abs(sum(row) - 1) > 1e-9:
             return "proba-row-sum: instance %d row %s sums to %r" % (i, row, sum(row))
     # the combination of the members' own outputs
@@ -621,6 +646,8 @@ def _clf_oracle(case, out):
             if any(abs(a - b) > 1e-9 for a, b in zip(exp, P[i])):
                 return "proba-not-mean-of-members: instance %d got %s, members give %s" % (i, P[i], exp)
     # predictions
+    if out.get("pred_err"):
+        return "predict-error: %s" % out["pred_err"]
     if out["pred_shape"] != [n]:
         return "predict-shape: %s for %d instances" % (out["pred_shape"], n)
     slack = 1e-9 if out["tie"] == "near" else 0.0
@@ -887,6 +914,12 @@ def distribution(cases, results):
         o = r.get("out") or {}
         key = c.get("clf", c["kind"])
         d["%s:%s" % (key, "error" if "err" in o else "fit-refused" if "fit_refused" in o else "ran")] += 1
+        if c.get("clf") == "cboss" and o.get("mkind") == "votes":
+            ws = [_f(w) for w, _ in o["members"]]
+            if ws and max(w or 0 for w in ws) < 1e-6:
+                d["cboss-ensembles-of-zero-accuracy-members-only"] += 1
+            elif any((w or 0) < 1e-6 for w in ws):
+                d["cboss-ensembles-with-a-zero-accuracy-member"] += 1
         if o.get("mkind") == "trees":
             short = sum(1 for tc, _ in o["members"] if len(tc) < len(o["classes"]))
             d["forests-with-a-tree-that-missed-a-class" if short else "forests-all-trees-saw-all-classes"] += 1
